@@ -453,6 +453,10 @@ func (w *world) do(s Step) {
 		if err := r.c.Pull("origin"); err != nil {
 			ev.Err = err.Error()
 		}
+	case "Fetch":
+		if _, err := r.c.Fetch("origin"); err != nil {
+			ev.Err = err.Error()
+		}
 	case "Remove":
 		if s.B < 1 || s.B > len(w.bugIds) {
 			ev.Err = "no such bug"
